@@ -56,6 +56,29 @@ fn run_history(tracer: &Tracer, cfg: &Cfg, ops: &[Value], storage: bool, tag: &V
     if w.writer.is_some() {
         w.exec(&json!({"op":"wait_merges"}));
     }
+    // a discarded merge is not followed by a collection: collect once more, explicitly
+    // (threads of the previous writer may still hold segment metas for a moment: collect until
+    // nothing more is deleted, at most 6 times; the verdict on what is left is TLC's)
+    w.exec(&json!({"op":"new_writer"}));
+    for round in 0..25 {
+        let ev = w.exec(&json!({"op":"gc"}));
+        let deleted = ev["deleted"].as_array().map(|a| a.len()).unwrap_or(0);
+        // loop exit only (no verdict): are there still files that meta.json does not list?
+        let mut wanted: Vec<String> = vec![];
+        if let Ok(metas) = w.index.searchable_segment_metas() {
+            for m in metas {
+                for f in m.list_files() {
+                    wanted.push(w.tracer.path(&f));
+                }
+            }
+        }
+        let extra = w.dir.listing().iter().filter(|p| !wanted.contains(p)).count();
+        if (deleted == 0 && extra == 0) || (round >= 24) {
+            break;
+        }
+        std::thread::sleep(std::time::Duration::from_millis(if round < 3 { 15 } else { 100 }));
+    }
+    w.exec(&json!({"op":"wait_merges"}));
     w.exec(&json!({"op":"observe"}));
     tantivy::verif::set_sink(None);
     if nimg > 0 {
